@@ -322,6 +322,29 @@ func genVal(t *rapid.T, td *TD, malP int, quirk string) Val {
 		v.Bytes = genBytes(t, "bits")
 		v.Unused = rapid.IntRange(0, 7).Draw(t, "unused")
 	case KOID:
+		if pct(t, 35, "oidfamily") {
+			// families of OIDs whose contents are 14..17 octets long and differ in the last octet only (several of them
+			// meet in one case / SEQUENCE OF and across the cases of a process)
+			l := rapid.IntRange(14, 17).Draw(t, "oidlen")
+			fam := rapid.IntRange(0, 2).Draw(t, "oidfam")
+			v.Arcs = []int{1, 2} // one octet 0x2a
+			used := 1
+			for used < l-1 {
+				switch {
+				case fam == 1 && used+2 <= l-1:
+					v.Arcs = append(v.Arcs, 840) // 86 48
+					used += 2
+				case fam == 2 && used+3 <= l-1:
+					v.Arcs = append(v.Arcs, 113549) // 86 f7 0d
+					used += 3
+				default:
+					v.Arcs = append(v.Arcs, 1)
+					used++
+				}
+			}
+			v.Arcs = append(v.Arcs, rapid.IntRange(0, 127).Draw(t, "oidlast"))
+			break
+		}
 		a0 := rapid.IntRange(0, 2).Draw(t, "arc0")
 		a1 := rapid.IntRange(0, 39).Draw(t, "arc1")
 		if a0 == 2 && pct(t, 30, "arc1big") {
